@@ -501,6 +501,14 @@ func lastDot(s string) string {
 
 // chanCell resolves a channel operand to the local cell it was loaded from.
 func chanCell(p *core.Prog, v ssa.Value) *ssa.Alloc {
+	// (a channel used with a direction is the variable's value under a type change)
+	for {
+		ct, ok := v.(*ssa.ChangeType)
+		if !ok {
+			break
+		}
+		v = ct.X
+	}
 	if u, ok := v.(*ssa.UnOp); ok && u.Op == token.MUL {
 		return p.CellRoot(u.X)
 	}
